@@ -18,7 +18,7 @@ spec fn tip_height_spec(s: &State) -> int {
 
 //@extract file=canister/src/api/get_block_headers.rs item="fn verify_and_return_effective_range" props=C07
 //@ ret r
-//@ rewrite R7 "with_state\(main_chain_height\)" => "main_chain_height(vp_state())"
+//@ r7 ro="vp_state()" type=State
 //@ spec
 //@| requires state_ranges(&global_state()),
 //@| ensures
